@@ -241,6 +241,55 @@ def merged_oracle(case, flags):
     return fails
 
 
+def sharp_twin(h):
+    """the hyper-parameters with every population width set to zero (same centres)"""
+    h2 = copy.deepcopy(h)
+    for blk in ("kwargs_lens", "kwargs_kin", "kwargs_source"):
+        for k in list((h2.get(blk) or {})):
+            if (k.endswith("_sigma") or k == "sigma_sne") and isinstance(h2[blk][k], (int, float)):
+                h2[blk][k] = 0.0
+    for d in (h2.get("kwargs_los") or []):
+        if isinstance(d, dict) and "sigma" in d:
+            d["sigma"] = 0.0
+    return h2
+
+
+def sample_history_oracle(case):
+    """a sample object that was first evaluated at the sharp twin of a point (every width zero) and then at the point returns,
+    under the same seed, what a fresh sample object returns there (and vice versa): the lenses keep nothing between calls"""
+    cosmo = lc.FakeCosmo()
+    h, h0 = copy.deepcopy(case["hyper"]), sharp_twin(case["hyper"])
+    # the main stream of this check is sharp: give the point a width in every population that has one to give
+    for d in (h.get("kwargs_los") or []):
+        if isinstance(d, dict) and d.get("sigma", None) == 0:
+            d["sigma"] = 0.02
+    for k in list(h.get("kwargs_lens") or {}):
+        if k.endswith("_sigma") and h["kwargs_lens"][k] == 0:
+            h["kwargs_lens"][k] = 0.03
+
+    def tot(sample, hh):
+        np.random.seed(7)
+        with np.errstate(all="ignore"):
+            return float(np.squeeze(sample.log_likelihood(cosmo, **copy.deepcopy(hh))))
+    same = lambda a, b: a == b or (math.isnan(a) and math.isnan(b)) or abs(a - b) <= 1e-12 * max(1.0, abs(a))  # noqa
+    try:
+        fresh = {"point": tot(build(case), h), "sharp twin": tot(build(case), h0)}
+    except Exception:  # noqa  - failures of a single evaluation belong to the main oracle
+        return []
+    for first, second in ((h0, h), (h, h0)):
+        s2 = build(case)
+        try:
+            tot(s2, first)
+            v = tot(s2, second)
+        except Exception as e:  # noqa
+            return ["history: the second evaluation on a re-used sample object raised %s, a fresh object evaluates both points" % err_enum(e)]
+        name = "point" if second is h else "sharp twin"
+        if not same(v, fresh[name]):
+            return ["history: the sample evaluated at the %s after the %s gives %r, a fresh sample object %r under the same seed "
+                    "(something is kept between calls)" % (name, "sharp twin" if second is h else "point", v, fresh[name])]
+    return []
+
+
 def oracle(case, rng):
     fails = []
     sample = build(case)
@@ -392,6 +441,9 @@ def run(ctx, res):
         if case["lenses"]:
             res.signatures.add((tuple(sorted((lt, kw.get("mst_ifu"), "global_los_distribution" in kw, tuple(kw.get("kin_scaling_param_list", [])))
                                              for kw, lt, _ in case["lenses"])), tuple(sorted(case["glob"]))))
+        if case["lenses"] and not fails:
+            res.count("sample_history")
+            fails = fails + sample_history_oracle(case)
         for f in fails:
             sig = f.split(" for types")[0] if "raised" in f else " ".join(f.split(" ")[:3])
             res.violation("LensSampleLikelihood:" + sig, f, enc_case(case))
